@@ -469,6 +469,10 @@ func (c *Client) validVirtualChannelProposal(prop *VirtualChannelProposalMsg, ou
 		return errors.Errorf("expected %d parent channels, got %d", numPeers, numParents)
 	}
 
+	if len(prop.Proposer) == 0 {
+		return errors.New("invalid proposer: no address")
+	}
+
 	parent, err := c.Channel(prop.Parents[ourIdx])
 	if err != nil {
 		return errors.New("parent channel not found")
@@ -577,7 +581,9 @@ func (c *Client) completeCPP(
 	partIdx channel.Index,
 ) (*Channel, error) {
 	propBase := prop.Base()
-	params := channel.NewParamsUnsafe(
+	// The participants come from the two messages: a participant without an
+	// address, for example, must end the opening with an error.
+	params, err := channel.NewParams(
 		propBase.ChallengeDuration,
 		c.mpcppParts(prop, acc),
 		propBase.App,
@@ -586,13 +592,15 @@ func (c *Client) completeCPP(
 		prop.Type() == wire.VirtualChannelProposal,
 		propBase.Aux,
 	)
+	if err != nil {
+		return nil, errors.WithMessage(err, "invalid channel parameters")
+	}
 
 	if c.channels.Has(params.ID()) {
 		return nil, errors.New("channel already exists")
 	}
 
 	accounts := make(map[wallet.BackendID]wallet.Account)
-	var err error
 	opened := false
 	for i, wall := range c.wallet {
 		accounts[i], err = wall.Unlock(params.Parts[partIdx][i])
